@@ -4,6 +4,7 @@
 #include "c19_engine.hpp"
 #include "c19_fam_quantiles.hpp"  // show_bytes
 #include <hll.hpp>
+#include "hll_model.hpp"
 #include <cpc_sketch.hpp>
 #include <cpc_union.hpp>
 #include <iomanip>
@@ -42,6 +43,12 @@ struct HllSketchFamily {
   }
   static void update(Env&, Obj& sk, uint64_t seed, unsigned n) {
     vf::Rng r(seed);
+    // one batch in four starts with one or two keys whose register value is exactly 15: in an HLL_4 array they live in the exception
+    // table until the minimum register value moves up, when the table empties and has to be given back (and is built again later)
+    if ((seed >> 3) % 4 == 1) {
+      static const std::vector<int64_t> k15 = [] { std::vector<int64_t> v; for (auto& kv : vf::high_pool().keys) if (kv.second == 15) v.push_back(kv.first); return v; }();
+      for (unsigned j = 0; j < 1 + (seed >> 5) % 2 && !k15.empty(); ++j) { int64_t k = k15[((seed >> 6) + j) % k15.size()]; LibScope ls; sk.update(k); }
+    }
     for (unsigned i = 0; i < n; ++i) { uint64_t k = count_key(r, seed); LibScope ls; sk.update(k); }
   }
   static bool merge_ref(Env&, Obj&, const Obj&) { return false; }
